@@ -1196,6 +1196,14 @@ def _match(wd, path, got):
 
 
 def _do_save(wd, op, step):
+    wd.fs.activate()
+    try:
+        return _do_save_inner(wd, op, step)
+    finally:
+        wd.fs.deactivate()
+
+
+def _do_save_inner(wd, op, step):
     si, path = op["setup"], op["path"]
     gen = _S["gen"]
     rec = _record(wd, si)
@@ -1231,6 +1239,14 @@ def _load(wd, path):
 
 
 def _do_load_check(wd, op, step):
+    wd.fs.activate()
+    try:
+        return _do_load_check_inner(wd, op, step)
+    finally:
+        wd.fs.deactivate()
+
+
+def _do_load_check_inner(wd, op, step):
     path = op["path"]
     wd.fs.begin_op()
     _arm(wd, op)
@@ -1289,6 +1305,14 @@ def _adopt(wd, si, obj):
 
 
 def _do_restart(wd, op, step):
+    wd.fs.activate()
+    try:
+        return _do_restart_inner(wd, op, step)
+    finally:
+        wd.fs.deactivate()
+
+
+def _do_restart_inner(wd, op, step):
     si, path = op["setup"], op["path"]
     rec = _record(wd, si)
     snap = rec["snap"]
@@ -1324,6 +1348,14 @@ def _do_restart(wd, op, step):
 
 
 def _do_crash(wd, op, step):
+    wd.fs.activate()
+    try:
+        return _do_crash_inner(wd, op, step)
+    finally:
+        wd.fs.deactivate()
+
+
+def _do_crash_inner(wd, op, step):
     """The process dies inside save_to_file; every live object is lost; the world restarts from disk."""
     si, path = op["setup"], op["path"]
     gen = _S["gen"]
